@@ -12,7 +12,7 @@ CHECK_DEADLOCK FALSE
 """
 
 
-def run(ctx):
+def _run_main(ctx):
     thorough = ctx.tier == "thorough"
     ctx.rule = ("exhaustive: every list of 1..N outputs over the output templates x 3 driver lists x 3 operation lists x stop flag; each on 3 (quick, rotating) or 6 "
                 "(thorough) API variants; non-trivial = at least one member failed; distinct by scenario x variant")
@@ -57,3 +57,19 @@ def run(ctx):
     ctx.traces_validated = len(res)
     ctx.sample({"scenario": scns[len(scns) // 3]})
     ctx.sample({"scenario": scns[-1]})
+
+
+OPOPT_FIELDS = {"generic.FailedWhenContains", "generic.StopOnFailed"}   # the operation options this property relies on (OpOptions.tla; every other option is noise in any position)
+
+
+def run(ctx):
+    import json as _json
+    import opopts
+    if ctx.replay:
+        rp = _json.load(open(ctx.replay))["scenario"]
+        if rp.get("kind") == "opopts":
+            opopts.replay(ctx, "C13", OPOPT_FIELDS, rp)
+            return
+    _run_main(ctx)
+    if not ctx.replay:
+        opopts.stage(ctx, "C13", OPOPT_FIELDS, ctx.tier == "thorough")
